@@ -58,3 +58,26 @@ theorem joinBytes_length (sep : List Nat) (cells : List (List Nat)) (w : Nat) (h
       omega
 
 end KT.Sch
+
+namespace KT.Sch
+open KT
+
+/-- length of a joined, newline-terminated row of fixed-width cells (cell text abstract) -/
+theorem row_length_abstract {β : Type} (delim : List Nat) (counts : List Nat) (f : Nat → β)
+    (h : β → List Nat) (hne : counts ≠ []) (h8 : ∀ c ∈ counts, (h (f c)).length = 8) :
+    (joinBytes delim ((counts.map f).map h) ++ [10]).length = perLineSize counts.length delim.length := by
+  have hcells : ∀ c ∈ (counts.map f).map h, c.length = 8 := by
+    intro c hc
+    simp only [List.map_map, List.mem_map, Function.comp] at hc
+    obtain ⟨a, ha, rfl⟩ := hc
+    exact h8 a ha
+  have hne' : (counts.map f).map h ≠ [] := by
+    intro e
+    have := congrArg List.length e
+    simp only [List.length_map, List.length_nil] at this
+    exact hne (List.length_eq_zero_iff.mp this)
+  have hj := joinBytes_length delim _ 8 hne' hcells
+  simp only [List.length_map] at hj
+  simp only [List.length_append, List.length_cons, List.length_nil, hj, perLineSize]
+
+end KT.Sch
